@@ -66,6 +66,25 @@ func (g *Gen) tplClosureExit() []L.Stmt {
 	exit := g.n(14, "exit")
 	g.class("closure:capture" + strconv.Itoa(capture) + ":exit" + strconv.Itoa(exit))
 	// the statements that create the closures, given the exit statement to run after them
+	// the closures may be created in a block nested inside the one that declares the variable
+	innerCreate := g.n(3, "innercreate") == 0
+	if innerCreate {
+		g.class("closure:created_in_block_nested_in_the_declaring_one")
+	}
+	closurePair := func(saved L.Expr, v string) []L.Stmt {
+		ss := closurePair(saved, v)
+		if innerCreate {
+			switch g.n(3, "innercreatekind") {
+			case 0:
+				return []L.Stmt{ifs(bin("~=", name(v), str("never this")), blk(ss...), nil)}
+			case 1:
+				return []L.Stmt{&L.DoStmt{Body: blk(&L.DoStmt{Body: blk(ss...)})}}
+			default:
+				return []L.Stmt{&L.NumForStmt{Var: "once", Start: num(1), End: num(1), Body: blk(ss...)}}
+			}
+		}
+		return ss
+	}
 	create := func(v string, exitStmt []L.Stmt) []L.Stmt {
 		var ss []L.Stmt
 		switch capture {
@@ -246,7 +265,13 @@ func (g *Gen) tplClosureExit() []L.Stmt {
 		body := fn(nil, false, blk(create(v, []L.Stmt{callStmt(call(field(name("coroutine"), "yield"), str("parked")))})...))
 		out = append(out, emit(call(call(field(name("coroutine"), "wrap"), body))))
 	default: // coroutine dies with an error
-		body := fn(nil, false, blk(create(v, []L.Stmt{callStmt(call(name("error"), tbl(kv(str("code"), num(1)))))})...))
+		var death L.Stmt = callStmt(call(name("error"), tbl(kv(str("code"), num(1)))))
+		if g.n(2, "covmfault") == 0 {
+			// (a fault raised by an instruction of the very function that owns the captured locals)
+			g.class("closure:coroutine_dies_of_vm_fault")
+			death = local1("bad", field(name("nonexistentglobal"), "fld"))
+		}
+		body := fn(nil, false, blk(create(v, []L.Stmt{death})...))
 		co := g.fresh("co")
 		out = append(out, local1(co, call(field(name("coroutine"), "create"), body)), emit(call(name("select"), num(1), call(field(name("coroutine"), "resume"), name(co)))), emit(call(field(name("coroutine"), "status"), name(co))))
 	}
